@@ -34,6 +34,9 @@ pub fn check(tier: Tier) -> Check {
         }
     }
     parts.push(Part::new("C06/interleave", json!({"depth": tier.pick(5, 6), "r": 1, "flavour": 1}), 1, tier.pick(30, 400)));
+    // persistent back-pressure on the write half (WriteBlock / WriteUnblock events)
+    parts.push(Part::new("C06/interleave", json!({"depth": tier.pick(4, 5), "r": 2, "wb": true}), 1, tier.pick(30, 400)));
+    parts.push(Part::new("C06/interleave", json!({"depth": tier.pick(3, 4), "wb": true}), 2, tier.pick(30, 400)));
     // identifier flavour: the counters start next to a boundary of their encodings (DESIGN 4)
     parts.push(Part::new("C06/interleave", json!({"depth": tier.pick(5, 6), "r": 2, "ids": [65534, 1]}), 1, tier.pick(30, 400)));
     parts.push(Part::new("C06/interleave", json!({"depth": tier.pick(5, 6), "ids": [255, 1]}), 0, tier.pick(30, 400)));
